@@ -6,6 +6,30 @@ from helpers import *
 from mirparse import split_top
 
 
+
+def hash_order(ex, m):
+    """entries of a HashMap/HashSet in iteration order.  std's order is unspecified (randomly keyed hasher); by default the
+    model iterates in insertion order.  With ex.env['hash_orders'] the order becomes a decision: every permutation for up
+    to 3 entries, every rotation and its reverse beyond; the order is kept while the map is not modified, as std does."""
+    es = m.entries
+    n = len(es)
+    if n < 2 or not ex.env.get('hash_orders'): return es
+    ids = tuple(id(e[0]) for e in es)
+    cur = getattr(m, '_order', None)
+    if cur is None or cur[0] != ids:
+        import itertools
+        if n <= 3: perms = list(itertools.permutations(range(n)))
+        else:
+            rots = [tuple((i + r) % n for i in range(n)) for r in range(n)]
+            perms = rots + [tuple(reversed(p)) for p in rots]
+        cnt = ex.env['hash_order_n'] = ex.env.get('hash_order_n', 0) + 1
+        s_ = ex.sym('hashorder!%d' % cnt, 'u8')
+        if not isinstance(s_.v, int): ex.assume(z3.ULT(s_.v, len(perms)))
+        k = ex.concretize(s_)
+        cur = (ids, perms[k % len(perms)]); m._order = cur
+    return [es[i] for i in cur[1]]
+
+
 def collect_into(ex, vals, ty):
     b = base_ty(ty) if ty else 'Vec'
     if b in ('Vec', 'VecDeque', 'Bytes', 'BytesMut', 'Box'): return VecV([Cell(v) for v in vals], len(vals))
@@ -435,15 +459,15 @@ def inherent(ex, ci, sb, meth, args, fn, dest_ty):
             i = map_find(ex, m, args[1])
             if i is None: return opt(None)
             e = m.entries.pop(i); return opt(tup(e[0].v, e[1].v))
-        if meth == 'keys': return Iter('pylist', vals=[Ref(k) for k, c_ in m.entries], i=0)
-        if meth == 'into_keys': return Iter('pylist', vals=[k.v for k, c_ in m.entries], i=0)
-        if meth == 'values' or meth == 'values_mut': return Iter('pylist', vals=[Ref(c_) for k, c_ in m.entries], i=0)
-        if meth == 'into_values': return Iter('pylist', vals=[c_.v for k, c_ in m.entries], i=0)
+        if meth == 'keys': return Iter('pylist', vals=[Ref(k) for k, c_ in hash_order(ex, m)], i=0)
+        if meth == 'into_keys': return Iter('pylist', vals=[k.v for k, c_ in hash_order(ex, m)], i=0)
+        if meth == 'values' or meth == 'values_mut': return Iter('pylist', vals=[Ref(c_) for k, c_ in hash_order(ex, m)], i=0)
+        if meth == 'into_values': return Iter('pylist', vals=[c_.v for k, c_ in hash_order(ex, m)], i=0)
         if meth == 'iter' or meth == 'iter_mut':
-            if isset: return Iter('pylist', vals=[Ref(k) for k, c_ in m.entries], i=0)
-            return Iter('pylist', vals=[tup(Ref(k), Ref(c_)) for k, c_ in m.entries], i=0)
+            if isset: return Iter('pylist', vals=[Ref(k) for k, c_ in hash_order(ex, m)], i=0)
+            return Iter('pylist', vals=[tup(Ref(k), Ref(c_)) for k, c_ in hash_order(ex, m)], i=0)
         if meth == 'drain':
-            es = m.entries; m.entries = []
+            es = hash_order(ex, m); m.entries = []
             return Iter('pylist', vals=[k.v if isset else tup(k.v, c_.v) for k, c_ in es], i=0)
         if meth == 'union':
             o = ex.deref(args[1])
